@@ -7,6 +7,7 @@ CONSTANTS
  ReqChoices = {0, 1}
  NChunks = 9
  MaxIds = 3
+ AllowKnown <- FalseValue
 CHECK_DEADLOCK FALSE
 VIEW SysView
 INVARIANTS TypeOK Order LossOverflow LossNoOverflow Recipients RefExact FreeIffZero ChunkUnique NoLeak Conservation ChunksSuffice UsedBound LoanInside LimitsRespected
